@@ -272,11 +272,11 @@ func genTemplDoc(r *rng, cols []colDesc, depth int) *jnode {
 
 // ---------- running ----------
 
-type recWriter struct {
+type tplWriter struct {
 	writes [][]byte
 }
 
-func (w *recWriter) Write(b []byte) (int, error) {
+func (w *tplWriter) Write(b []byte) (int, error) {
 	w.writes = append(w.writes, append([]byte(nil), b...))
 	return len(b), nil
 }
@@ -386,7 +386,7 @@ func (c *templCtx) lineOf(doc *jnode) string {
 }
 
 func exportOnce(to jsonline.Template, input interface{}) (out []byte, err error, nwrites int, panicked bool, msg string) {
-	w := &recWriter{}
+	w := &tplWriter{}
 	panicked, msg = guard(func() { err = to.GetExporter(w).Export(input) })
 	nwrites = len(w.writes)
 	if nwrites > 0 {
@@ -800,7 +800,7 @@ func (c *templCtx) judgeOutput(inCols, outCols []colDesc, same bool, line string
 		return
 	}
 	body := out[:len(out)-1]
-	tree, perr := refParse(body)
+	tree, perr := refTree(body)
 	if perr != nil || tree.kind != 'o' {
 		c.violate("C01", fmt.Sprintf("emitted line %q is not a valid JSON object: %v", body, perr), ctx)
 		return
@@ -811,7 +811,7 @@ func (c *templCtx) judgeOutput(inCols, outCols []colDesc, same bool, line string
 	c.checkClass(outCols, tree, ctx, false)
 	// C03: order and presence (stated for one column list shared by both templates, as jl builds them)
 	if line != "" && (same || len(inCols) == 0) {
-		if inTree, err := refParse([]byte(line)); err == nil && inTree.kind == 'o' {
+		if inTree, err := refTree([]byte(line)); err == nil && inTree.kind == 'o' {
 			c.checkOrder(outCols, inTree, tree, ctx, "top level")
 		}
 	}
@@ -837,7 +837,7 @@ func (c *templCtx) judgeOutput(inCols, outCols []colDesc, same bool, line string
 		}
 		if !bytes.Equal(out2, out) {
 			what := fmt.Sprintf("fixed point: second pass gives %q", out2)
-			if t2, e := refParse(out2[:len(out2)-1]); e == nil && refSortedEqual(tree, t2) {
+			if t2, e := refTree(out2[:len(out2)-1]); e == nil && refSortedEqual(tree, t2) {
 				what = "object under a declared column: " + what + " (same members, other order)"
 			} else if yearIssue(tree) {
 				what = "year outside 0-9999: " + what
